@@ -124,6 +124,38 @@ func runStat(c *engine.Chooser, name, cfg string, p rlwe.Parameters, pk, isNTT b
 	}
 	c.Outcome(cfg, int(pool.Std()*4))
 
+	// First draws of FRESH objects, judged on their own: every repetition builds a new encryptor (and a
+	// ShallowCopy of a never-used one) and pools only its first encryption. A sampler whose first
+	// outputs are degenerate (lazy buffer initialisation, state that only warms up after a few calls)
+	// hides in the long-run pool above (8 bad draws out of 32 move σ by 13%) but not here.
+	var fresh, freshCopy rk.Pool
+	for r := 0; r < reps; r++ {
+		level := L - r%(L+1)
+		for w, pl := range []*rk.Pool{&fresh, &freshCopy} {
+			en := rlwe.NewEncryptor(p, key)
+			if w == 1 {
+				en = en.ShallowCopy()
+			}
+			ct := rlwe.NewCiphertext(p, 1, level)
+			ct.IsNTT = isNTT
+			if err := en.EncryptZero(ct); err != nil {
+				c.Fail(gen+"error", "%s: EncryptZero: %v", cfg, err)
+				return
+			}
+			pl.Add(rk.Phase(rt, rQ, &ct.Element, s))
+		}
+	}
+	c.Count(2 * reps)
+	for w, pl := range []*rk.Pool{&fresh, &freshCopy} {
+		what := []string{"NewEncryptor", "NewEncryptor().ShallowCopy()"}[w]
+		c.Cover("stat-ratio(empirical/nominal sigma)", fmt.Sprintf("%.1f", pl.Std()/nominal))
+		if pl.NonZero == 0 || !inWindow(pl.Std(), nominal) {
+			c.Fail(gen+"fresh-object-first-draw/sigma-window", "%s: FIRST encryption of %d fresh %s: empirical σ %.4f (nonzero %d/%d) outside [σ/2,2σ] of the nominal %.4f", cfg, reps, what, pl.Std(), pl.NonZero, pl.N, nominal)
+			return
+		}
+	}
+	c.Cover("stat-probe", "fresh-object-first-draw")
+
 	if pk {
 		statPkProbes(c, cfg, p, pub, s, isNTT, lowLevels, s2, epk2)
 	}
